@@ -588,6 +588,84 @@ def threaded(a):
     return None
 
 
+
+# ---- arguments are inputs only; one helper object serves every argument combination ----
+
+def direct_args_unchanged(a):
+    """A mnemonic handed over as an object (or the caller's list) is not altered by decoding / validating / seed
+    generation, and repeating a call on the same object gives the same answer (also for an invalid mnemonic)."""
+    fam, lang, damage = a
+    import copy
+    import bip_utils as B
+    from bip_utils.utils.mnemonic import Mnemonic
+    ent = bytes(range(32)) if fam in ("monero", "algorand") else bytes(range(16))
+    if fam == "bip39":
+        ws = B.Bip39MnemonicGenerator(list(B.Bip39Languages)[lang]).FromEntropy(ent).ToList()
+        mk, dec, val = B.Bip39Mnemonic, B.Bip39MnemonicDecoder, B.Bip39MnemonicValidator
+        seedgen = lambda m: B.Bip39SeedGenerator(m).Generate("p")
+    elif fam == "monero":
+        ws = B.MoneroMnemonicGenerator(list(B.MoneroLanguages)[lang]).FromEntropyWithChecksum(ent).ToList()
+        mk, dec, val = B.MoneroMnemonic, B.MoneroMnemonicDecoder, B.MoneroMnemonicValidator
+        seedgen = lambda m: B.MoneroSeedGenerator(m).Generate()
+    elif fam == "algorand":
+        ws = B.AlgorandMnemonicGenerator().FromEntropy(ent).ToList()
+        mk, dec, val = B.AlgorandMnemonic, B.AlgorandMnemonicDecoder, B.AlgorandMnemonicValidator
+        seedgen = lambda m: B.AlgorandSeedGenerator(m).Generate()
+    elif fam == "electrum1":
+        ws = B.ElectrumV1MnemonicGenerator().FromEntropy(ent).ToList()
+        mk, dec, val = B.ElectrumV1Mnemonic, B.ElectrumV1MnemonicDecoder, B.ElectrumV1MnemonicValidator
+        seedgen = lambda m: B.ElectrumV1SeedGenerator(m).Generate()
+    else:
+        ws = B.ElectrumV2MnemonicGenerator(B.ElectrumV2MnemonicTypes.STANDARD).FromEntropy(bytes(range(1, 18))).ToList()
+        mk, dec, val = B.ElectrumV2Mnemonic, B.ElectrumV2MnemonicDecoder, B.ElectrumV2MnemonicValidator
+        seedgen = lambda m: B.ElectrumV2SeedGenerator(m).Generate("p")
+    if damage:
+        ws = list(ws)
+        ws[-1] = ws[0] if ws[-1] != ws[0] else ws[1]         # wrong last (checksum) word
+    caller_list = list(ws)
+    obj = mk.FromList(caller_list)
+
+    def out(f):
+        try:
+            r = f()
+            return ("ok", bytes(r).hex() if isinstance(r, (bytes, bytearray)) else r)
+        except Exception as e:  # noqa
+            return ("err", type(e).__name__)
+    for what, f in (("Decode", lambda: dec().Decode(obj)), ("IsValid", lambda: val().IsValid(obj)), ("seed", lambda: seedgen(obj))):
+        answers = []
+        for _ in range(3):
+            answers.append(out(f))
+            if obj.ToList() != ws or caller_list != ws or obj.WordsCount() != len(ws):
+                return "%s %s(%s mnemonic object) altered its argument: %d words left of %d" % (
+                    fam, what, "damaged" if damage else "valid", obj.WordsCount(), len(ws))
+        if answers[1:] != answers[:-1]:
+            return "%s %s on one mnemonic object answers %s on successive calls" % (fam, what, answers)
+        fresh = out(lambda: {"Decode": lambda: dec().Decode(mk.FromList(list(ws))), "IsValid": lambda: val().IsValid(mk.FromList(list(ws))),
+                             "seed": lambda: seedgen(mk.FromList(list(ws)))}[what]())
+        if fresh != answers[0]:
+            return "%s %s: the reused object answers %s, a fresh one %s" % (fam, what, answers[0], fresh)
+    return None
+
+
+def direct_shared_helper(a):
+    """One MoneroSubaddress helper asked for the same indexes under several net versions, in both orders: every answer
+    equals that of a fresh helper (a cache keyed on the indexes only shows here)."""
+    import bip_utils as B
+    from bip_utils.monero.monero_subaddr import MoneroSubaddress
+    seed, minor, major = a
+    w = B.Monero.FromSeed(seed)
+    mk = lambda: MoneroSubaddress(w.PrivateViewKey(), w.PublicSpendKey(), w.PublicViewKey())
+    nets = [bytes([x]) for x in (42, 36, 63, 18, 42)]
+    shared = mk()
+    for nv in nets + nets[::-1]:
+        got = shared.ComputeAndEncodeKeys(minor, major, nv)
+        want = mk().ComputeAndEncodeKeys(minor, major, nv)
+        if got != want:
+            return "MoneroSubaddress reused: (%d,%d) under net version %s gives %s..., a fresh helper %s..." % (
+                minor, major, nv.hex(), got[:12], want[:12])
+    return None
+
+
 FUNCS = {
     "call_in_history": Func(model=model_case, impl=impl_case, direct=direct_case),
     "fresh_interpreter": Func(impl=impl_replay, direct=direct_replay),
@@ -601,6 +679,8 @@ FUNCS = {
     "unstable_op": Func(impl=lambda a: 0, direct=lambda a: direct_unstable(a)),
     # args: [rounds (each a list of operation specifications, one per thread), seed]
     "race_schedule": Func(impl=lambda a: 0, direct=lambda a: direct_race(a)),
+    "args_unchanged": Func(impl=lambda a: 0, direct=direct_args_unchanged),
+    "shared_helper": Func(impl=lambda a: 0, direct=direct_shared_helper),
     "history_run": Func(impl=lambda a: a[1], direct=lambda a: direct_history_run(a)),
 }
 
@@ -1224,6 +1304,12 @@ def run_history(ctx, h, tag):
 
 def generate(ctx):
     rng = ctx.rng
+    for fam, nl in (("bip39", len(list(__import__("bip_utils").Bip39Languages))), ("monero", len(list(__import__("bip_utils").MoneroLanguages))), ("algorand", 1), ("electrum1", 1), ("electrum2", 1)):
+        for lang in sorted({0, nl - 1, rng.randrange(nl)}):
+            for damage in (0, 1):
+                ctx.run("args_unchanged", [fam, lang, damage], fam)
+    for _ in range(ctx.n(3, 20)):
+        ctx.run("shared_helper", [bytes(rng.randrange(256) for _ in range(32)), rng.choice([0, 1, 5]), rng.choice([1, 2, 7])], "monero-subaddr")
     reflective(ctx)
     if os.environ.get("C15_ONLY_REFLECTIVE") == "1":      # development aid: skip the object-history half
         return
